@@ -6,7 +6,25 @@ From Signalo Require Import Check.Common Model.Registry Check.C12.
 Record case := mk { ce : nat; ccfg : list Q; chist : list (list Q); ccontA : list (list Q); ccontB : list (list Q);
                     couts_hist : list (list Q); coutsA : list (list Q); coutsB : list (list Q);
                     crefA : list (list Q); crefB : list (list Q); ccached : option (option (list Q)); cpanic : bool }.
-Definition check (c : case) : verdict :=
+(* two further kinds, recognised by an entry number beyond the registry:
+   100: float exactness -- a float filter (f32/f64; outputs as exact rationals from the bit patterns) and its
+        copy were fed the SAME continuation: coutsA (original) and coutsB (copy) must be identical
+   101: source Cache over FromIter(ccfg): chist is the operation program ([0] = pull, [1] = cached()),
+        couts_hist the observations ([] = None, [v] = Some v) *)
+Fixpoint observe_cache (items : list Q) (pos : nat) (last : option Q) (ops : list (list Q)) : list (list Q) :=
+  let enc o := match o with Some v => [v] | None => [] end in
+  match ops with
+  | [] => []
+  | o :: r => if qeqb (nth 0 o 0) 0
+              then enc (nth_error items pos) :: observe_cache items (S pos) (nth_error items pos) r
+              else enc last :: observe_cache items pos last r
+  end.
+Definition check_extra (c : case) : verdict :=
+  if (ce c =? 100)%nat then
+    mkv true (negb (cpanic c) && ll_eqb (coutsA c) (coutsB c) && (length (coutsA c) =? length (ccontA c))%nat) (negb (ll_eqb (coutsA c) []))
+  else
+    mkv true (negb (cpanic c) && ll_eqb (couts_hist c) (observe_cache (ccfg c) 0 None (chist c))) (2 <=? length (chist c))%nat.
+Definition check_reg (c : case) : verdict :=
   let m := nth (ce c) registry m_mean in
   let '(oh, f) := run_m m (ccfg c) (minit m (ccfg c)) (chist c) in
   let model_ok := negb (cpanic c) && ll_eqb oh (couts_hist c) &&
@@ -20,3 +38,4 @@ Definition check (c : case) : verdict :=
   let spec_ok := negb (cpanic c) && ll_eqb (coutsA c) (crefA c) && ll_eqb (coutsB c) (crefB c) && cached_ok
                  && (length (coutsB c) =? length (ccontB c))%nat in
   mkv model_ok spec_ok ((2 <=? length (chist c))%nat && negb (ll_eqb (coutsA c) (coutsB c))).
+Definition check (c : case) : verdict := if (100 <=? ce c)%nat then check_extra c else check_reg c.
